@@ -156,6 +156,77 @@ pub fn de_wide_numbers<S: Src>(s: &mut S) {
     }
 }
 
+/// Strings of exactly L bytes (ASCII) serialize to the String with the same bytes and
+/// deserialize back to the same String.
+fn ser_de_string<S: Src, const L: usize>(s: &mut S) {
+    let mut b = [0u8; L];
+    let mut i = 0;
+    while i < L {
+        b[i] = s.u8();
+        s.assume(b[i] < 0x80);
+        i += 1;
+    }
+    let st = unsafe { String::from_utf8_unchecked(b.to_vec()) };
+    let r = ManuallyDrop::new(to_value(&st));
+    cover!(L == 0 || b[0] == b'"', "a quote character");
+    match &*r {
+        Ok(ConstValue::String(out)) => {
+            assert!(out.len() == L, "length preserved");
+            let ob = out.as_bytes();
+            let mut i = 0;
+            while i < L {
+                assert!(ob[i] == b[i], "bytes preserved");
+                i += 1;
+            }
+            let back = ManuallyDrop::new(from_value::<String>(ConstValue::String(out.clone())));
+            match &*back {
+                Ok(t) => {
+                    assert!(t.len() == L, "round trip length");
+                    let tb = t.as_bytes();
+                    let mut i = 0;
+                    while i < L {
+                        assert!(tb[i] == b[i], "round trip bytes");
+                        i += 1;
+                    }
+                }
+                Err(_) => assert!(false, "String does not deserialize"),
+            }
+        }
+        _ => assert!(false, "a string must serialize to a String"),
+    }
+    std::mem::forget(st);
+}
+pub fn ser_de_string0<S: Src>(s: &mut S) { ser_de_string::<S, 0>(s) }
+pub fn ser_de_string2<S: Src>(s: &mut S) { ser_de_string::<S, 2>(s) }
+
+/// A 2-tuple and a 2-element sequence serialize to a List of the elements' values, in order.
+pub fn ser_tuple_seq<S: Src>(s: &mut S) {
+    let x = s.u8();
+    let y = s.bool();
+    cover!(y, "true");
+    let r = ManuallyDrop::new(to_value(&(x, y)));
+    match &*r {
+        Ok(ConstValue::List(items)) => {
+            assert!(items.len() == 2, "two elements");
+            assert!(matches!(&items[0], ConstValue::Number(n) if num_i128(n) == Some(x as i128)), "first element");
+            assert!(matches!(&items[1], ConstValue::Boolean(b) if *b == y), "second element");
+        }
+        _ => assert!(false, "a tuple must serialize to a List"),
+    }
+    let a = s.u16();
+    let b = s.u16();
+    let v = ManuallyDrop::new(vec![a, b]);
+    let r = ManuallyDrop::new(to_value(&*v));
+    match &*r {
+        Ok(ConstValue::List(items)) => {
+            assert!(items.len() == 2, "two elements");
+            assert!(matches!(&items[0], ConstValue::Number(n) if num_i128(n) == Some(a as i128)), "first element");
+            assert!(matches!(&items[1], ConstValue::Number(n) if num_i128(n) == Some(b as i128)), "second element");
+        }
+        _ => assert!(false, "a sequence must serialize to a List"),
+    }
+}
+
 harnesses! {
     #[kani::unwind(4)] #[kani::stub(std::fmt::format, crate::stubs::fmt_stub)] c16_ser_i8 => ser_i8;
     #[kani::unwind(4)] #[kani::stub(std::fmt::format, crate::stubs::fmt_stub)] c16_ser_i16 => ser_i16;
@@ -171,4 +242,7 @@ harnesses! {
     #[kani::unwind(4)] #[kani::stub(std::fmt::format, crate::stubs::fmt_stub)] c16_ser_enum_newtype => ser_enum_newtype;
     #[kani::unwind(4)] #[kani::stub(std::fmt::format, crate::stubs::fmt_stub)] c16_de_bool_unit_option => de_bool_unit_option;
     #[kani::unwind(4)] #[kani::stub(std::fmt::format, crate::stubs::fmt_stub)] c16_de_wide_numbers => de_wide_numbers;
+    #[kani::unwind(4)] #[kani::stub(std::fmt::format, crate::stubs::fmt_stub)] c16_ser_de_string0 => ser_de_string0;
+    #[kani::unwind(4)] #[kani::stub(std::fmt::format, crate::stubs::fmt_stub)] c16_ser_de_string2 => ser_de_string2;
+    #[kani::unwind(4)] #[kani::stub(std::fmt::format, crate::stubs::fmt_stub)] c16_ser_tuple_seq => ser_tuple_seq;
 }
